@@ -101,7 +101,7 @@ def main():
             harness_error(err)
         deadline = a.deadline if a.deadline is not None else d.get('deadline', {}).get(tier, 1500 if tier == 'quick' else 2400)
         nshards = max(1, min(a.jobs, d.get('shards', {}).get(tier, 16)))
-        base = [exe, '--tier', tier, '--seed', str(seed)] + d.get('args', [])
+        base = [exe, '--tier', tier, '--seed', str(seed), '--case-limit', str(d.get('case_limit', {}).get(tier, 300))] + d.get('args', [])
         # determinism self-test: the same sampled cases in two separate processes
         stride = d.get('obs_stride', {}).get(tier, 97)
         for st in (stride, 7, 1):
@@ -205,8 +205,8 @@ def main():
     if len(new) > reported:
         print('... %d further violations (replay files in %s)' % (len(new) - reported, replay_dir))
 
-    # ---- vacuity guards
-    for need in spec.get('require_outcomes', []):
+    # ---- vacuity guards (only meaningful when the run found nothing: a violating tree may well lack an expected outcome)
+    for need in (spec.get('require_outcomes', []) if not new else []):
         if not any(fnmatch.fnmatchcase(o, need) for o in agg['outcomes']):
             if not agg['skipped']:
                 harness_error('vacuity guard: no outcome matching %r was produced' % need)
